@@ -4,6 +4,7 @@ package main
 
 import (
 	"fmt"
+	"math"
 	"os"
 	"strings"
 
@@ -318,7 +319,7 @@ func drawScripts(c *caseCtx, zt *board.ZobristTable, zseed int64) {
 	s.playAll("e1c1 e8e7 d1d2 e7e8")
 	s.emit(c)
 	// fifty-move rule counting on from the clock given at set-up
-	for _, clock := range []int{0, 90, 95, 98, 99, 100, 101, 150, 254, 255, 256, 260, 300, 354, 511, 1000, 65535, 65536} {
+	for _, clock := range []int{0, 90, 95, 98, 99, 100, 101, 150, 254, 255, 256, 260, 300, 354, 511, 1000, 65535, 65536, 1 << 31, 1 << 62, math.MaxInt64 - 2, math.MaxInt64 - 1, math.MaxInt64} {
 		s = newScript(zt, zseed, fmt.Sprintf("4k3/8/8/8/8/8/8/R3K3 w - - %d 80", clock))
 		s.playAll("a1a2 e8d8 a2a3 d8c8 a3b3 c8d8 b3c3 d8e8 c3c4 e8f8 c4c5 f8g8")
 		s.emit(c)
